@@ -20,6 +20,7 @@ type Stream struct {
 	fo, fi    *os.File
 	N         int
 	Hist      map[string]int // distribution: op kind / outcome class
+	dir, name string
 }
 
 func NewStream(dir, name string) *Stream {
@@ -31,11 +32,22 @@ func NewStream(dir, name string) *Stream {
 	if err != nil {
 		panic(err)
 	}
-	return &Stream{ops: bufio.NewWriter(fo), impl: bufio.NewWriter(fi), fo: fo, fi: fi, Hist: map[string]int{}}
+	return &Stream{ops: bufio.NewWriter(fo), impl: bufio.NewWriter(fi), fo: fo, fi: fi, Hist: map[string]int{}, dir: dir, name: name}
 }
 
 // Emit writes one operation line and the implementation's answer line.
+// Inflight records, before it runs, an operation that may take the whole process down (the application calls
+// os.Exit when its stores do not load): if the process dies, bin/check reports this operation as the failing input.
+func (s *Stream) Inflight(op string) {
+	if s.dir != "" {
+		os.WriteFile(filepath.Join(s.dir, s.name+".inflight"), []byte(op+"\n"), 0o644)
+	}
+}
+
 func (s *Stream) Emit(op string, ans string) {
+	if s.dir != "" {
+		os.Remove(filepath.Join(s.dir, s.name+".inflight"))
+	}
 	if strings.ContainsAny(op, "\n") || strings.ContainsAny(ans, "\n") {
 		panic("newline in protocol line")
 	}
